@@ -49,6 +49,9 @@ class _UnitsInterp(FinamInterp):
         return super().decide(cond, node)
 
     def call_hook(self, fv, args, kwargs, node, mod):
+        if isinstance(fv, Sym) and fv.op == "arrmethod":
+            # a cast / rounding of the numbers is a change of the numbers (`copy` is not)
+            return fv.args[0] if fv.args[1] == "copy" else Sym(fv.args[1], fv.args[0], *args)
         if isinstance(fv, Closure) and getattr(fv.func, "name", "") in ("check_quantified",):
             return None
         if isinstance(fv, Sym) and fv.op == "unitmethod":
@@ -77,7 +80,16 @@ class _UnitsInterp(FinamInterp):
                 return obj.args[0]
             if attr == "units":
                 return obj.args[1]
+        if isinstance(obj, Sym) and obj.op in ("mag", "conv", "astype") and attr == "dtype":
+            return Sym("dtype", obj)
+        if isinstance(obj, Sym) and obj.op in ("mag", "conv", "astype") and attr in ("astype", "round", "copy"):
+            return Sym("arrmethod", obj, attr)
         return super().get_attr(obj, attr, node, mod)
+
+    def builtin(self, name, args, kwargs, node):
+        if name == "getattr" and len(args) >= 2 and isinstance(args[0], Sym) and args[0].op in ("mag", "conv", "astype") and isinstance(args[1], str):
+            return self.get_attr(args[0], args[1], node, None)
+        return super().builtin(name, args, kwargs, node)
 
     def binop(self, op, left, right, node):
         if isinstance(op, ast.Mult) and left == 1.0 and isinstance(right, Sym) and right.op == "unit":
@@ -98,6 +110,10 @@ class _UnitsInterp(FinamInterp):
         return super().ext_call(name, args, kwargs, node)
 
     def sym_compare(self, op, left, right, node):
+        if isinstance(left, Sym) and isinstance(right, Sym) and left.op == right.op == "dtype" and isinstance(op, (ast.Eq, ast.NotEq)):
+            # the data type of converted numbers differs from the original whenever integers are converted: that outcome is explored
+            same = left == right
+            return same if isinstance(op, ast.Eq) else not same
         if isinstance(left, Sym) and isinstance(right, Sym) and left.op == right.op == "base" and isinstance(op, (ast.Eq, ast.NotEq)):
             return self.compatible if isinstance(op, ast.Eq) else not self.compatible
         if isinstance(left, Sym) and isinstance(right, Sym) and left.op == "unit" and right.op == "unit":
@@ -468,7 +484,11 @@ class _ArrInterp(FinamInterp):
             if n == "is_masked_array":
                 return self.masked_input and args[0] == Sym("X")
             if n == "is_quantified":
-                return False
+                return bool(getattr(self, "quantified", False)) and args[0] == Sym("X")
+            if n == "quantify":
+                return Sym("qty", args[0], args[1] if len(args) > 1 else kwargs.get("units"))
+            if n == "get_magnitude":
+                return Sym("X.magnitude") if args[0] == Sym("X") else args[0]
             if n == "mask_specified":
                 return isinstance(args[0], Sym) and args[0].op in ("M", "nomask")
             if n == "to_masked":
@@ -480,6 +500,10 @@ class _ArrInterp(FinamInterp):
     def get_attr(self, obj, attr, node, mod):
         if isinstance(obj, Sym) and obj.op == "ext" and obj.args[0] in ("np.ma", "numpy.ma") and attr == "nomask":
             return NOMASK
+        if isinstance(obj, Sym) and obj == Sym("X") and attr == "magnitude":
+            return Sym("X.magnitude")
+        if isinstance(obj, Sym) and obj == Sym("X.magnitude") and attr in ("data", "mask"):
+            return Sym("X." + attr)  # the magnitude of a masked quantity: the same data and mask
         if isinstance(obj, Sym) and obj == Sym("X") and attr in ("data", "mask", "units"):
             if attr == "mask" and getattr(self, "nomask_input", False):
                 return NOMASK
@@ -530,6 +554,17 @@ def r33c_compress(repo, sink):
     want = Sym("compress", Sym("ravel", Sym("X.data"), O), Sym("logical_not", Sym("ravel", Sym("X.mask"), O)))
     sink.check(got == want, "R33", "compress:to:masked-array", tc, ok="masked arrays: own data and own mask, same order",
                bad=f"to_compressed on a masked array computes {got!r}")
+    # quantified masked data: the compressed values carry the units of the input
+    it = _ArrInterp(repo, masked_input=True)
+    it.quantified = True
+    try:
+        got = it.run(tc, [X], {"order": O})
+        ok = isinstance(got, Sym) and got.op == "qty" and got.args[1] == Sym("X.units") and got.args[0] == want
+        sink.check(ok, "R33", "compress:to:quantified", tc, ok="quantified masked data: compressed values with the units of the input",
+                   bad=f"to_compressed on a quantified masked array computes {got!r}: the result must be the compressed values labelled with the input's units "
+                       "(5 m must not come back as 5)")
+    except (Raised, Undecided, AnalysisError) as exc:
+        sink.unknown("R33", "compress:to:quantified", tc, f"outside vocabulary: {exc}")
     # masked array / explicit mask that is numpy's `nomask`: nothing is dropped, the order still applies
     it = _ArrInterp(repo, masked_input=True)
     it.nomask_input = True
@@ -1141,10 +1176,22 @@ def r15g_gridcompat(repo, sink):
         return o
 
     class _MeshCompat(_GridCompat):
+        # arrays are named symbols; a name "X@n" carries the length n of its first axis (numpy refuses to broadcast arrays
+        # whose lengths differ, array_equal answers False)
+        @staticmethod
+        def _len(a):
+            return a.args[0].partition("@")[2] or None
+
         def ext_call(self, name, args, kwargs, node):
             short = name.split(".")[-1]
             if short in ("allclose", "array_equal", "array_equiv") and all(isinstance(a, Sym) and a.op == "arr" for a in args[:2]):
+                if self._len(args[0]) != self._len(args[1]):
+                    if short == "allclose":
+                        self.on_raise(Sym("exc", "ValueError", "operands could not be broadcast together"), node)
+                    return False
                 return args[0] == args[1]
+            if short in ("shape", "ndim", "size") and args and isinstance(args[0], Sym) and args[0].op == "arr":
+                return Sym(short, self._len(args[0]))
             if short == "all" and isinstance(args[0], bool):
                 return args[0]
             return super().ext_call(name, args, kwargs, node)
@@ -1159,11 +1206,17 @@ def r15g_gridcompat(repo, sink):
         ("different data location, location not to be checked", {"loc": "POINTS"}, False, True),
         ("different data shape", {"shape": (7,)}, True, False), ("different points", {"points": "P2"}, True, False),
         ("different cells", {"cells": "C2"}, True, False), ("different cell types", {"types": "T2"}, True, False),
+        ("another mesh with as many cells but more points (cell data)", {"points": "P2@9", "cells": "C2", "types": "T2"}, True, False),
+        ("another mesh with as many points but more cells, location not to be checked", {"cells": "C2@8", "types": "T2@8"}, False, False),
     ):
         it = _MeshCompat(repo)
         try:
             got = it.run(fu, [mesh(**{**ubase, **delta})], {"check_location": check_loc}, self_obj=mesh(**ubase))
-        except (Raised, Undecided, AnalysisError) as exc:
+        except Raised as r:
+            worst = worst or (f"{name}: compatible_with raises {r.name} instead of answering False: connect() ends in that error where an incompatible grid has "
+                              "to be rejected with a metadata error")
+            continue
+        except (Undecided, AnalysisError) as exc:
             worst = worst or f"{name}: {exc}"
             continue
         if bool(got) != want:
@@ -1302,8 +1355,8 @@ def r15c_copy_with(repo, sink):
         it = _R(repo)
         src = it.construct(ic, [], {"time": Sym("time", "T"), "grid": g1, "mask": Sym("maskarr", "M", (3, 2)), "units": "m"}, None)
         merged = it.run(f, [], {"use_none": False, "time": Sym("time", "T2"), "grid": g2, "units": None}, self_obj=src)
-        mg = it.run(repo.resolve(ic, "grid", "getter"), [], self_obj=merged)
-        mm = it.run(repo.resolve(ic, "mask", "getter"), [], self_obj=merged)
+        mg = it.attr(merged, "grid", None, None)  # (public properties, however the class defines them)
+        mm = it.attr(merged, "mask", None, None)
         if mg is not g2 or mm != Sym("maskarr", "M", (3, 2)):
             why = f"the copy carries grid {mg!r} and mask {mm!r}; expected the consumer's grid and the delivered mask"
     except Raised as r:
